@@ -30,6 +30,16 @@ CHECKS = {
             "that was sent. Search, not proof: larger streams are sampled.",
             "Trusts the recording layers of the harness and Python's struct module as the length reference.",
             "5/C05"),
+    "C06": ("exploration",
+            "Hypothesis-generated stanzas/entities per catalogue kind, each executed over the complete grid of 32 layer-set "
+            "configurations against a routing table (the entity catalogue) as reference model",
+            "For every kind that travels unsolicited upward or is sent by the application, generated values are run through "
+            "the real parallel protocol layer group (with and without the real encryption layers) in all 16 module selections: "
+            "exactly one entity of the catalogued class / exactly one stanza equal to the serialisation when the owning module is "
+            "present, nothing and no exception when it is left out.",
+            "The routing table is the pinned catalogue; message stanzas are plaintext-proto ones; outgoing messages only "
+            "without the encryption layers.",
+            "5/C06"),
     "C09": ("exploration",
             "Hypothesis-generated stanzas per documented shape (entity catalogue) with a stanza->entity->stanza round-trip "
             "oracle, and generated constructor arguments pushed through the real codec",
